@@ -4,7 +4,7 @@
    [ref_args g c t] = tinputs t ++ map c (pred g t): static inputs, then predecessor results in the
    order of the workflow's predecessor list;  [built g]: g is reachable by WorkflowBuilder operations. *)
 From Coq Require Import List Bool PArith Arith Permutation.
-From PV Require Import Base.PyData C17.Model C17.ProofsSched C17.ProofsDask C17.ProofsGraph C17.ProofsBuilder C17.Proofs C17.ProofsPrepare C17.ProofsDeclared C17.ProofsOptimize C17.ProofsQueries C17.ProofsFinal.
+From PV Require Import Base.PyData C17.Model C17.ProofsSched C17.ProofsDask C17.ProofsGraph C17.ProofsBuilder C17.Proofs C17.ProofsPrepare C17.ProofsDeclared C17.ProofsOptimize C17.ProofsQueries C17.ProofsFuse C17.ProofsFinal.
 Import ListNotations.
 
 (* The sequential reference evaluation IS what the property describes: in any order in which it
@@ -259,8 +259,9 @@ Theorem as_dask_dict_has_no_futures :
     as_dask_dict g ids = Some d ->
     (forall t a, In t (nodes g) -> In a (tinputs t) -> no_fut a = true) -> dsk_no_fut d = true.
 Proof. exact as_dask_dict_has_no_futures_stmt. Qed.
-(* (dask.optimization.fuse is an engine: its inline / alias steps are read off every real optimized dict and
-   re-applied and re-evaluated inside Coq by the check - tags 10 and 19 - there is no theorem about them.) *)
+(* (dask.optimization.fuse is an engine: WHICH steps it takes is read off every real optimized dict and re-applied
+   inside Coq by the check - tag 10; THAT such steps preserve the result is proved below: inline_preserves,
+   alias_preserves, fuse_steps_preserve.) *)
 
 (* ---- queries and + ------------------------------------------------------------------------------------ *)
 (* output_tasks / input_tasks: exactly the tasks without successors / predecessors, in node order *)
@@ -309,3 +310,51 @@ Theorem call_workflow_context_exact :
     (forall t, In t (nodes g) ->
        pred (call_prepare g ctx next) (call_image g ctx next t) = map (call_image g ctx next) (pred (workflow_of g) t)).
 Proof. exact call_workflow_context_exact_stmt. Qed.
+
+(* ---- the rewrites of dask.optimization.fuse ------------------------------------------------------------- *)
+(* inline_preserves.  For EVERY duplicate-free acyclic dict (any values), every key c whose task is referred to
+   exactly once in the whole graph (all values clean: no key string hidden in a non-task tuple, where
+   dask.core.subs would not look), substituting the task of c into its dependent and deleting c gives again a
+   duplicate-free acyclic dict in which dask.get returns for EVERY other key what it returned before. *)
+Theorem inline_preserves :
+  forall (apply : positive -> list sval -> sval) (d : dsk) (c : positive),
+    NoDup (dkeys d) -> length (dask_sched d) = length d -> fuse_step_ok d (FInline c) = true ->
+    NoDup (dkeys (fuse_step d (FInline c))) /\
+    length (dask_sched (fuse_step d (FInline c))) = length (fuse_step d (FInline c)) /\
+    forall r, r <> c -> dask_get apply (fuse_step d (FInline c)) r = dask_get apply d r.
+Proof. exact inline_preserves_stmt. Qed.
+
+(* ... and the calls: every valid trace of d, with c left out, is a valid trace of the rewritten dict with the
+   same values, where a key makes its old calls plus the calls of c once per reference it had to c (exactly one
+   reference exists in the graph when the step is legal).  The statement about the multiset of ALL calls of a
+   whole run is not derived from this here; the check evaluates it per case (tag 19). *)
+Theorem inline_calls_per_key :
+  forall (apply : positive -> list sval -> sval) (d : dsk) (c : positive) (vc : sval),
+    dlookup d c = Some vc -> (forall k v, dlookup d k = Some v -> clean (dkeys d) v = true) ->
+    ~ In c (arg_deps (dkeys d) vc) ->
+    forall T, dvalid apply d T ->
+    exists T', dvalid apply (fuse_step d (FInline c)) T' /\ done positive dval T' = remc c (done positive dval T) /\
+      forall k, In k (done positive dval T') ->
+        fst (dget T' k) = fst (dget T k) /\
+        Permutation (snd (dget T' k)) (snd (dget T k) ++ rep (cnt c (dask_deps d k)) (snd (dget T c))).
+Proof. exact inline_calls_per_key_stmt. Qed.
+
+(* alias_preserves.  Storing the task of r under a new key a that no value mentions where the scheduler reads
+   strings, and making r the alias of a, changes no value of any key other than a. *)
+Theorem alias_preserves :
+  forall (apply : positive -> list sval -> sval) (d : dsk) (r a : positive),
+    NoDup (dkeys d) -> length (dask_sched d) = length d -> fuse_step_ok d (FAlias r a) = true ->
+    NoDup (dkeys (fuse_step d (FAlias r a))) /\
+    length (dask_sched (fuse_step d (FAlias r a))) = length (fuse_step d (FAlias r a)) /\
+    forall q, q <> a -> dask_get apply (fuse_step d (FAlias r a)) q = dask_get apply d q.
+Proof. exact alias_preserves_stmt. Qed.
+
+(* fuse_steps_preserve.  ANY sequence of legal inline / alias steps on ANY duplicate-free acyclic dict: the key
+   r (e.g. 'results'), provided no step removes it or introduces it as an alias, keeps its dask.get value; the
+   final dict is duplicate free and acyclic.  This is what the tie re-applies step by step (tag 10). *)
+Theorem fuse_steps_preserve :
+  forall (apply : positive -> list sval -> sval) (r : positive) (steps : list fstep) (d dn : dsk),
+    NoDup (dkeys d) -> length (dask_sched d) = length d ->
+    avoids r steps = true -> fuse_steps d steps = (dn, true) ->
+    NoDup (dkeys dn) /\ length (dask_sched dn) = length dn /\ dask_get apply dn r = dask_get apply d r.
+Proof. exact fuse_steps_preserve_stmt. Qed.
